@@ -26,6 +26,7 @@ VARIABLES
   lastTick  \* the node whose tick produced this state, or Nil (set by the wrappers: CoreMC, CoreSim, CoreTrace)
 
 gvars == <<G, CG, elected, granted, maxTerm, ackIdx, reapply, subm, preCrash, lastTick>>
+gvarsNoTick == <<G, CG, elected, granted, maxTerm, ackIdx, reapply, subm, preCrash>>
 
 Live(n) == node[n].alive
 IsVoter(n) == n \notin Observers
